@@ -15,13 +15,13 @@ import (
 	"hash/crc32"
 	"io"
 	"log"
+	"os"
 	"strings"
 
 	"verifharness/hxcodec"
 	"verifharness/hxlib"
 
 	fatchoy "qchen.fun/fatchoy"
-	"qchen.fun/fatchoy/packet"
 	"qchen.fun/fatchoy/x/cipher"
 )
 
@@ -30,7 +30,14 @@ type Case struct {
 	Ck     string        `json:"ck"`               // chunking of the re-read stream
 	Split  bool          `json:"split"`            // decode with ReadHeadBody+UnmarshalPacket instead of ReadPacket
 	Cipher string        `json:"cipher,omitempty"` // a real cipher of x/cipher: Go-side only (no model lines)
+	UOff   int           `json:"uoff,omitempty"`   // search legs (split decoding): header and payload reach UnmarshalPacket at addresses UOff mod 16
+	Hist   *Hist         `json:"hist,omitempty"`   // search legs: a history on one codec instance (search.go); Pkts is unused then
 }
+
+// failCtx is put in front of every failure text (the search legs name the step and packet of a history there).
+var failCtx string
+
+func fail(r *hxlib.Run, key, what string, c interface{}) { r.Fail(key, failCtx+what, c) }
 
 // the protocol description (v1_header.go, v2_header.go comments), restated for the oracle
 func headerSize(v int) int {
@@ -103,7 +110,7 @@ func checkEncode(r *hxlib.Run, c *Case, d *hxcodec.Pkt, o *hxcodec.EncObs, cr cr
 	}
 	cl := class(d)
 	if o.Panic != "" {
-		r.Fail("encode:panic:"+cl, fmt.Sprintf("WritePacket panics: %s", o.Panic), c)
+		fail(r, "encode:panic:"+cl, fmt.Sprintf("WritePacket panics: %s", o.Panic), c)
 		return nil, false
 	}
 	written := []byte{}
@@ -116,11 +123,11 @@ func checkEncode(r *hxlib.Run, c *Case, d *hxcodec.Pkt, o *hxcodec.EncObs, cr cr
 		sameRefs = uint32(a.Refers()[i]) == d.Refs[i]
 	}
 	if a.Command() != d.Cmd || a.Seq() != d.Seq || uint8(a.Type()) != d.Typ || uint32(a.Node()) != d.Node || !sameRefs {
-		r.Fail("encode:packet-modified:"+cl, fmt.Sprintf("WritePacket changed the caller's packet: cmd %d->%d seq %d->%d typ %d->%d node %d->%d refs same=%v",
+		fail(r, "encode:packet-modified:"+cl, fmt.Sprintf("WritePacket changed the caller's packet: cmd %d->%d seq %d->%d typ %d->%d node %d->%d refs same=%v",
 			d.Cmd, a.Command(), d.Seq, a.Seq(), d.Typ, uint8(a.Type()), d.Node, uint32(a.Node()), sameRefs), c)
 	}
 	if extra := (uint8(a.Flag()) ^ d.Flag) &^ 0x03; extra != 0 || uint8(a.Flag())&d.Flag != d.Flag {
-		r.Fail("encode:flag-bits:"+cl, fmt.Sprintf("flag %#x became %#x: more than the compression/encryption bits changed", d.Flag, uint8(a.Flag())), c)
+		fail(r, "encode:flag-bits:"+cl, fmt.Sprintf("flag %#x became %#x: more than the compression/encryption bits changed", d.Flag, uint8(a.Flag())), c)
 	}
 	// what the limits say, computed without the codec
 	thr := defThreshold(d.V, d.Thr)
@@ -140,23 +147,23 @@ func checkEncode(r *hxlib.Run, c *Case, d *hxcodec.Pkt, o *hxcodec.EncObs, cr cr
 	if (d.V == 2 && len(d.Refs) > 255) || n > maxFrame(d.V) {
 		r.Count("limit-exceeded:" + cl)
 		if o.Err == nil {
-			r.Fail("limit:no-error:"+cl, fmt.Sprintf("frame of %d bytes / %d references exceeds the limit but WritePacket returned n=%d, nil", n, len(d.Refs), o.N), c)
+			fail(r, "limit:no-error:"+cl, fmt.Sprintf("frame of %d bytes / %d references exceeds the limit but WritePacket returned n=%d, nil", n, len(d.Refs), o.N), c)
 		}
 		if len(written) > 0 {
-			r.Fail("limit:bytes-emitted:"+cl, fmt.Sprintf("WritePacket refused the packet (%v) after writing %d bytes", o.Err, len(written)), c)
+			fail(r, "limit:bytes-emitted:"+cl, fmt.Sprintf("WritePacket refused the packet (%v) after writing %d bytes", o.Err, len(written)), c)
 		}
 		return nil, false
 	}
 	if o.Err != nil {
-		r.Fail("encode:error-within-limits:"+cl, fmt.Sprintf("frame of %d bytes is within the limits but WritePacket returned %v", n, o.Err), c)
+		fail(r, "encode:error-within-limits:"+cl, fmt.Sprintf("frame of %d bytes is within the limits but WritePacket returned %v", n, o.Err), c)
 		return nil, false
 	}
 	if o.N != len(written) {
-		r.Fail("encode:return-count:"+cl, fmt.Sprintf("WritePacket returned %d after writing %d bytes", o.N, len(written)), c)
+		fail(r, "encode:return-count:"+cl, fmt.Sprintf("WritePacket returned %d after writing %d bytes", o.N, len(written)), c)
 	}
 	// the documented layout, field by field
 	bad := func(kind, what string) {
-		r.Fail("layout:"+kind+":"+cl, fmt.Sprintf("frame %s: %s", hxcodec.Digest(written), what), c)
+		fail(r, "layout:"+kind+":"+cl, fmt.Sprintf("frame %s: %s", hxcodec.Digest(written), what), c)
 	}
 	if len(written) != n {
 		bad("frame-length", fmt.Sprintf("length %d, expected %d", len(written), n))
@@ -222,22 +229,22 @@ func checkEncode(r *hxlib.Run, c *Case, d *hxcodec.Pkt, o *hxcodec.EncObs, cr cr
 func checkDecode(r *hxlib.Run, c *Case, d *hxcodec.Pkt, o *hxcodec.DecObs, wantPos int) {
 	cl := class(d)
 	if o.Panic != "" {
-		r.Fail("roundtrip:panic:"+cl, "decoding an encoder-produced frame panics: "+o.Panic, c)
+		fail(r, "roundtrip:panic:"+cl, "decoding an encoder-produced frame panics: "+o.Panic, c)
 		return
 	}
 	if d.Flag&3 != 0 {
 		return // the caller pre-set a codec bit: outside the property's packets
 	}
 	if o.Err != nil {
-		r.Fail("roundtrip:decode-error:"+cl, fmt.Sprintf("frame produced by WritePacket is refused: %v", o.Err), c)
+		fail(r, "roundtrip:decode-error:"+cl, fmt.Sprintf("frame produced by WritePacket is refused: %v", o.Err), c)
 		return
 	}
 	if o.Pos != wantPos {
-		r.Fail("roundtrip:position:"+cl, fmt.Sprintf("reader at %d after the frame, the encoder produced bytes up to %d", o.Pos, wantPos), c)
+		fail(r, "roundtrip:position:"+cl, fmt.Sprintf("reader at %d after the frame, the encoder produced bytes up to %d", o.Pos, wantPos), c)
 	}
 	p := o.Pkt
 	if p.Command() != d.Cmd || p.Seq() != d.Seq || uint8(p.Flag()) != d.Flag {
-		r.Fail("roundtrip:fields:"+cl, fmt.Sprintf("cmd/seq/flag %d/%d/%#x came back as %d/%d/%#x", d.Cmd, d.Seq, d.Flag, p.Command(), p.Seq(), uint8(p.Flag())), c)
+		fail(r, "roundtrip:fields:"+cl, fmt.Sprintf("cmd/seq/flag %d/%d/%#x came back as %d/%d/%#x", d.Cmd, d.Seq, d.Flag, p.Command(), p.Seq(), uint8(p.Flag())), c)
 	}
 	if d.V == 2 {
 		same := uint8(p.Type()) == d.Typ && uint32(p.Node()) == d.Node && len(p.Refers()) == len(d.Refs)
@@ -245,26 +252,26 @@ func checkDecode(r *hxlib.Run, c *Case, d *hxcodec.Pkt, o *hxcodec.DecObs, wantP
 			same = uint32(p.Refers()[i]) == d.Refs[i]
 		}
 		if !same {
-			r.Fail("roundtrip:v2-fields:"+cl, fmt.Sprintf("type/node/references %d/%d/%v came back as %d/%d/%v", d.Typ, d.Node, d.Refs, uint8(p.Type()), uint32(p.Node()), p.Refers()), c)
+			fail(r, "roundtrip:v2-fields:"+cl, fmt.Sprintf("type/node/references %d/%d/%v came back as %d/%d/%v", d.Typ, d.Node, d.Refs, uint8(p.Type()), uint32(p.Node()), p.Refers()), c)
 		}
 	}
 	body, _ := d.BodyBytes()
 	switch got := p.Body().(type) {
 	case nil:
 		if len(body) != 0 {
-			r.Fail("roundtrip:body:"+cl, fmt.Sprintf("body of %d bytes came back absent", len(body)), c)
+			fail(r, "roundtrip:body:"+cl, fmt.Sprintf("body of %d bytes came back absent", len(body)), c)
 		}
 	case []byte:
 		if !bytes.Equal(got, body) || d.Flag&uint8(fatchoy.PFlagError) != 0 {
-			r.Fail("roundtrip:body:"+cl, fmt.Sprintf("body %s came back as %s", hxcodec.Digest(body), hxcodec.Digest(got)), c)
+			fail(r, "roundtrip:body:"+cl, fmt.Sprintf("body %s came back as %s", hxcodec.Digest(body), hxcodec.Digest(got)), c)
 		}
 	case int64:
 		want, _ := binary.Varint(body)
 		if d.Flag&uint8(fatchoy.PFlagError) == 0 || got != want {
-			r.Fail("roundtrip:body:"+cl, fmt.Sprintf("error-code body %s came back as %d (flag %#x)", hxcodec.Digest(body), got, d.Flag), c)
+			fail(r, "roundtrip:body:"+cl, fmt.Sprintf("error-code body %s came back as %d (flag %#x)", hxcodec.Digest(body), got, d.Flag), c)
 		}
 	default:
-		r.Fail("roundtrip:body:"+cl, fmt.Sprintf("body came back as %T", got), c)
+		fail(r, "roundtrip:body:"+cl, fmt.Sprintf("body came back as %T", got), c)
 	}
 }
 
@@ -296,7 +303,10 @@ func frameSpec(d *hxcodec.Pkt, frame []byte) string {
 
 func runCase(r *hxlib.Run, c *Case) {
 	r.Case()
-	emit := c.Cipher == ""
+	emit := c.Cipher == "" && c.UOff == 0 && !strings.HasPrefix(c.Ck, "e:") // what the model's line protocol can express
+	for i := range c.Pkts {
+		emit = emit && c.Pkts[i].Off == 0
+	}
 	var stream []byte
 	var specs []string
 	var ends []int
@@ -359,9 +369,7 @@ func runCase(r *hxlib.Run, c *Case) {
 			o = hxcodec.Decode(rd, v, key, c.Split)
 			r.Op(hxcodec.RdLine(rd, before, v, key, &o))
 		} else {
-			pkt := packet.Make()
-			o.Panic = hxlib.Guard(func() { o.Err = hxcodec.Encoder(v, 0).ReadPacket(rd, cryptOf(c, d).dec, pkt) })
-			o.Pkt, o.Pos = pkt, rd.Pos
+			o = hxcodec.DecodeWith(hxcodec.Encoder(v, 0), cryptOf(c, d).dec, rd, c.Split, c.UOff)
 		}
 		checkDecode(r, c, d, &o, ends[i])
 		if o.Err != nil || o.Panic != "" {
@@ -375,7 +383,7 @@ func runCase(r *hxlib.Run, c *Case) {
 		r.Op(hxcodec.RdLine(rd, before, v, key, &o))
 	}
 	if o.Err != io.EOF || o.Pos != len(stream) {
-		r.Fail("stream:end:"+class(sent[0]), fmt.Sprintf("after the last frame the reader answers %v at %d (stream has %d bytes)", o.Err, o.Pos, len(stream)), c)
+		fail(r, "stream:end:"+class(sent[0]), fmt.Sprintf("after the last frame the reader answers %v at %d (stream has %d bytes)", o.Err, o.Pos, len(stream)), c)
 	}
 }
 
@@ -639,9 +647,18 @@ func main() {
 	if r.Replay != "" {
 		var c Case
 		r.LoadReplay(&c)
-		runCase(r, &c)
+		if c.Hist != nil {
+			runHist(r, &c)
+		} else {
+			runCase(r, &c)
+		}
 		r.Sample(c)
 		return
 	}
+	if os.Getenv("HX_LEGS_ONLY") != "" { // development: the legs of search.go alone
+		legs(r)
+		return
+	}
 	generate(r)
+	legs(r) // search.go (after the generators, so that the smallest failing case of a kind is recorded first): cheap legs in every tier, the 10-60 s ones from thorough on, the rest with -search only
 }
